@@ -85,8 +85,16 @@ def canon(v):
 
 
 def token_of(item):
-    if type(item) is tuple and item and type(item[0]) is str and item[0].startswith("#IT:"):
-        return item[0][4:-1]
+    if type(item) is tuple and item:
+        h = item[0]
+        if type(h) is bytes:
+            # a gateway reconfigured with py3str_as_py2str=True hands strings over as bytes
+            try:
+                h = h.decode("utf-8")
+            except UnicodeDecodeError:
+                return None
+        if type(h) is str and h.startswith("#IT:"):
+            return h[4:-1]
     return None
 
 
@@ -674,6 +682,10 @@ def do_op(ctx, aid, oi, table, op):
         return ("val", len(ctx.group), t0, s.now, alive)
     if k == "gwexit":
         ctx.gws[op[1]].exit()
+        return ("ok",)
+    if k == "gw_reconfigure":
+        # gateway-level string coercion (Gateway.reconfigure), affects channels created afterwards on both sides
+        ctx.gws[op[1]].reconfigure(py2str_as_py3str=op[2], py3str_as_py2str=op[3])
         return ("ok",)
     if k == "reconfigure":
         _ch(table, op[1]).reconfigure(py2str_as_py3str=op[2], py3str_as_py2str=op[3])
